@@ -336,6 +336,11 @@ func dischargeAll(obls []*Obligation, prelude string, opts *Options) {
 	quickPass(obls, prelude, dir, opts)
 	var wg sync.WaitGroup
 	sem := make(chan struct{}, jobs)
+	// a function of which many obligations are already undecided has changed beyond what its contract describes: the rest
+	// of its obligations are not run (status "skipped"), the function is reported through the ones that were
+	var mu sync.Mutex
+	undecided := map[string]int{}
+	const giveUp = 24
 	for i, o := range obls {
 		if o.Status == "proved" || o.MustFail || o.Structural {
 			continue
@@ -345,7 +350,19 @@ func dischargeAll(obls []*Obligation, prelude string, opts *Options) {
 		go func(i int, o *Obligation) {
 			defer wg.Done()
 			defer func() { <-sem }()
+			mu.Lock()
+			n := undecided[o.Fn]
+			mu.Unlock()
+			if n >= giveUp {
+				o.Status, o.Output = "skipped", fmt.Sprintf("not run: %d obligations of %s are already undecided", n, o.Fn)
+				return
+			}
 			discharge(o, prelude, dir, i, opts)
+			if o.Status != "proved" {
+				mu.Lock()
+				undecided[o.Fn]++
+				mu.Unlock()
+			}
 		}(i, o)
 	}
 	wg.Wait()
